@@ -25,6 +25,7 @@ ASSUMPTIONS = ["expose handlers repaint exactly what they are asked to and nothi
                "after scroll_with_children (the property's proviso)",
                "the root window is never hidden, closed or given a geometry other than by a terminal resize",
                "window ids are unique; operations on closed windows or their descendants are not made",
+               "expose handlers may re-enter the window layer only with expose / show / hide / the four restack requests (no close, new, geometry change or scroll from inside a handler)",
                "content is single-width ASCII (the abstract render buffer is exact for it)",
                "no int overflow"]
 TRUSTED = ["model coq/WinDefs.v + WinRectSet.v + WinHist.v hand-written after src/window.c and src/rectset.c; abstract per-cell "
@@ -60,6 +61,20 @@ PROFILE = {"new": 10, "close": 4, "show": 5, "hide": 6, "restack": 10, "geom": 1
            "scroll": 10, "scrollrect": 5, "scrollkids": 3, "tresize": 4, "focus": 2, "cursor": 2, "dead": 1}
 
 
+PROFILE_RE = {"new": 12, "close": 2, "show": 4, "hide": 5, "restack": 6, "geom": 6, "expose": 8, "flush": 14,
+              "scroll": 3, "tresize": 1, "focus": 1}
+
+REENTRANT_FIXED = [
+    # a panel that shows its hidden popup sibling while it is being repainted (the popup must appear with the next flush)
+    "W G 4 8 A RA 1 1 sh 2 N 1 0 0 0 4 4 0 N 2 0 1 5 2 3 1 F F EA 1 F F F",
+    "W M 4 8 K RA 1 1 sh 2 N 1 0 0 0 4 4 0 N 2 0 1 5 2 3 1 F F EA 1 F E 0 1 5 2 3 F F",
+    # the root's handler exposes a child's area again; a child hides its sibling
+    "W G 4 6 A RA 0 1 ex 0 1 1 2 2 N 1 0 1 1 2 2 0 F F F",
+    "W G 4 6 A RA 2 1 hi 1 N 1 0 0 0 2 3 0 N 2 0 1 1 3 4 0 F F F",
+    "W G 4 6 A RA 1 2 rf 2 ea 2 N 1 0 0 0 3 3 0 N 2 0 1 1 3 4 2 F F F",
+]
+
+
 def gen(tier, seed, info):
     n = 0
     maxlen = 2 if tier == "quick" else 3
@@ -92,6 +107,30 @@ def gen(tier, seed, info):
         yield case
     info["random_cases"] = nrand
     info["random_op_kind_counts"] = kinds
+    # handlers that re-enter the window layer while the flush runs
+    nre = 3000 if tier == "quick" else 100000
+    for fixed in REENTRANT_FIXED:
+        yield fixed
+    for _ in range(nre):
+        nl, nc = rnd.randint(2, 6), rnd.randint(3, 9)
+        ops, sh = wingen.history(rnd, nl, nc, rnd.randint(4, 25), PROFILE_RE)
+        ras = []
+        ids = list(range(0, sh.next_id))
+        for w in ids:
+            if rnd.random() < 0.45:
+                acts = []
+                for _k in range(rnd.randint(1, 3)):
+                    tgt = rnd.choice(ids)
+                    a = rnd.choice(["ea", "ex", "sh", "hi", "sh", "hi", "ra", "rf", "lo", "lb"])
+                    if a in ("sh", "hi", "ra", "rf", "lo", "lb") and tgt == 0:
+                        a = "ea"
+                    if a == "ex":
+                        acts.append("ex %d %d %d %d %d" % (tgt, rnd.randint(-1, nl), rnd.randint(-1, nc), rnd.randint(1, nl), rnd.randint(1, nc)))
+                    else:
+                        acts.append("%s %d" % (a, tgt))
+                ras.append("RA %d %d %s" % (w, len(acts), " ".join(acts)))
+        yield wingen.header(rnd, nl, nc) + " " + " ".join(ras + ops) + " F F F F"
+    info["reentrant_cases"] = nre + len(REENTRANT_FIXED)
 
 
 def classify(case, obs):
